@@ -77,7 +77,7 @@ PROPS = {
     },
     "C06": {
         "standins": ["wire-values"],
-        "units": [wire_community.units_rx, wire_v3.units_rx, types_c17.units_table_c06], "level": "other", "design_ref": "7.6",
+        "units": [wire_community.units_rx, wire_v3.units_rx, wire_v3.units_reencode, types_c17.units_table_c06], "level": "other", "design_ref": "7.6",
         "technique": VC + "V1MPM/V2CMPM.decode and PDU.decode_raw executed on a well-formed RFC message with symbolic leaves "
                      "and arbitrary definite length forms; registration constants as a contract on data",
         "trusted_base": ["x690 decode contract on the TLV term algebra (class registered for the identifier octet)"],
